@@ -74,8 +74,30 @@ func digest(d dbm.DB) string {
 	return buf.String()
 }
 
+// the batch object of the step-by-step batch operations (one at a time)
+var openBatch dbm.Batch
+
 func apply(d *database.BackedMemDb, o op) string {
 	switch o.Ev {
+	case "BOpen":
+		openBatch = d.NewBatch()
+	case "BSet":
+		if err := openBatch.Set(key(o.K), val(o.V)); err != nil {
+			return err.Error()
+		}
+	case "BDel":
+		if err := openBatch.Delete(key(o.K)); err != nil {
+			return err.Error()
+		}
+	case "BWrite":
+		if err := openBatch.Write(); err != nil {
+			return err.Error()
+		}
+		openBatch.Close()
+		openBatch = nil
+	case "BDiscard":
+		openBatch.Close()
+		openBatch = nil
 	case "Set":
 		if err := d.Set(key(o.K), val(o.V)); err != nil {
 			return err.Error()
@@ -158,6 +180,8 @@ func opLine(o op) tr.M {
 	switch o.Ev {
 	case "Batch":
 		return tr.M{"ev": "Batch", "ops": o.Ops}
+	case "BOpen", "BWrite", "BDiscard":
+		return tr.M{"ev": o.Ev}
 	default:
 		return tr.M{"ev": o.Ev, "k": o.K, "v": o.V}
 	}
@@ -193,6 +217,7 @@ func main() {
 			}
 			dig0 := digest(perm)
 			d := database.NewBackedMemDb(perm)
+			openBatch = nil
 			w.Emit(tr.M{"ev": "Reset", "base": c.Base})
 			for _, o := range c.Path {
 				if e := apply(d, o); e != "" {
@@ -226,10 +251,31 @@ func main() {
 			}
 			dig0 := digest(perm)
 			d := database.NewBackedMemDb(perm)
+			openBatch = nil
 			w.Emit(tr.M{"ev": "Reset", "base": base})
 			for i := 0; i < *rlen; i++ {
 				var o op
-				switch rnd.Intn(4) {
+				c := rnd.Intn(7)
+				if openBatch != nil && c >= 4 {
+					switch rnd.Intn(5) {
+					case 0:
+						o = op{Ev: "BWrite"}
+					case 1:
+						o = op{Ev: "BDiscard"}
+					case 2:
+						o = op{Ev: "BDel", K: keys[rnd.Intn(len(keys))]}
+					default:
+						o = op{Ev: "BSet", K: keys[rnd.Intn(len(keys))], V: 1 + rnd.Intn(*nvals)}
+					}
+					c = -1
+				} else if openBatch == nil && c >= 5 {
+					o = op{Ev: "BOpen"}
+					c = -1
+				} else if c >= 4 {
+					c = 3
+				}
+				switch c {
+				case -1:
 				case 0, 1:
 					o = op{Ev: "Set", K: keys[rnd.Intn(len(keys))], V: 1 + rnd.Intn(*nvals)}
 				case 2:
